@@ -136,8 +136,24 @@ def coupled_geom(cuqi, name, n, user):
     return g
 
 
-def make_geom(cuqi, rng, kind=None):
+# dimensions / sample counts just below, at and just past constants that occur in the module (5, 8, 95, 100) and typical
+# block / threshold sizes (10: 'v10' follows 'v1'; 64, 100, 128, 200, 256) — incl. sizes that are not a multiple of them
+BIG_SIZES = [9, 10, 11, 63, 64, 65, 75, 95, 99, 100, 101, 127, 128, 130, 199, 200, 201, 255, 256, 257, 300, 301]
+
+
+def make_geom(cuqi, rng, kind=None, d=None):
     from cuqi.geometry import Continuous1D, Continuous2D, Image2D, Discrete, MappedGeometry, StepExpansion
+    if d is not None:
+        if kind == "default":
+            return G(None, f"id:{d}", kind, d, (d,), d)
+        if kind == "cont1d":
+            return G(Continuous1D(d), f"c1d:{d}", kind, d, (d,), d)
+        if kind == "discrete":
+            return G(Discrete(d), f"disc:{d}", kind, d, (d,), d)
+        if kind == "map-third":
+            g = G(MappedGeometry(Continuous1D(d), map=f64(lambda x: x / 3 + 1)), f"map:{q(1 / 3)}:1:affnoinv:c1d:{d}", kind, d, (d,), d, exact=False, has_inv=False)
+            return g
+        raise ValueError(kind)
     if kind is None and rng.random() < 0.3:
         return coupled_geom(cuqi, rng.choice(sorted(COUPLED)), rng.randint(2, 4), user=(rng.random() < 0.5))
     kind = kind or rng.choice(["default", "cont1d", "discrete", "names", "imgC", "imgF", "c2d", "step", "stepbad",
@@ -155,7 +171,7 @@ def make_geom(cuqi, rng, kind=None):
         return G(Discrete(d), f"disc:{d}", kind, d, (d,), d)
     if kind in ("names", "dupnames"):
         d = rng.randint(2, 5)
-        pool = ["a", "ab", "abc", "b", "x1", "x10", "x", "x_1", "k", "z9"]     # names that are substrings / prefixes of other names
+        pool = ["a", "ab", "abc", "b", "x1", "x10", "x", "x_1", "k", "z9", "0"]     # names that are substrings / prefixes of other names
         names = rng.sample(pool, d)
         if kind == "dupnames":
             i, j = rng.sample(range(d), 2)
@@ -197,6 +213,25 @@ def make_geom(cuqi, rng, kind=None):
 
 
 # ----------------------------------------------------------------------------- dtypes of the stored chain (G1)
+def low_prec(values, origin=None):
+    """(mean/median tolerance, variance/bounds tolerance) — numpy reduces float32 / float16 chains in that precision"""
+    dts = {str(np.asarray(v).dtype) for v in values if v is not None} | ({origin} if origin else set())
+    if "float16" in dts:
+        return 4e-3, 3e-2
+    if "float32" in dts:
+        return 2e-6, 2e-5
+    return None
+
+
+def narrow_int(dt):
+    """storage dtypes whose own arithmetic wraps (np.percentile interpolates b - a in the storage dtype)"""
+    return str(dt) in ("int8", "uint8", "int16")
+
+
+def state_tol(dtname):
+    return {"float32": 2e-6, "float16": 4e-3}.get(dtname, 1e-12)
+
+
 LAYOUT_OF = {}    # id(number array) -> memory layout / flags / class of the array the implementation stores (G7)
 LAY_HIST = {}
 
@@ -218,9 +253,15 @@ def choose_dtype(rng, arr, floats_only=False):
     if floats_only or not integral:
         dt = rng.choice(["float64", "float64", "float32"]) if bool(np.all(arr.astype(np.float32).astype(float) == arr)) else "float64"
     else:
-        dt = rng.choice(["float64"] * 5 + ["int64", "int64", "int32", "float32", "float32", "bool"])
+        dt = rng.choice(["float64"] * 6 + ["int64", "int64", "int32", "float32", "float32", "bool", "int8", "uint8", "int16", "float16"])
     if dt == "bool":
         arr = (arr > 0).astype(float)
+    if dt == "uint8":        # unsigned: arithmetic in the storage dtype would wrap below 0 / above 255
+        arr = np.abs(arr) + (200.0 if rng.random() < 0.5 else 0.0)
+    if dt == "int8":         # sums / squares wrap at 127 in the storage dtype
+        arr = np.clip(arr * 6, -128, 127)
+    if dt == "float16" and not bool(np.all(arr.astype(np.float16).astype(float) == arr)):
+        dt = "float64"
     DTYPE_OF[id(arr)] = dt
     DT_HIST[dt] = DT_HIST.get(dt, 0) + 1
     lay = rng.choice(["C"] * 6 + ["F", "strided", "reversed", "readonly", "sample-axis-first", "subclass"])
@@ -417,8 +458,7 @@ def oracle_stats(ctx, key, desc, arr, p, res):
     """per-coordinate statistics over the sample axis, chain by chain, in exact arithmetic"""
     ok = True
     mean, med, var, std, ci, width = res
-    f32 = any(np.asarray(v).dtype == np.float32 for v in (mean, med, var, std))   # numpy reduces a float32 chain in float32
-    tm, tv = (2e-6, 2e-5) if f32 else (1e-13, 1e-11)
+    tm, tv = low_prec((mean, med, var, std)) or (1e-13, 1e-11)   # numpy reduces a float32/float16 chain in that precision
     shape = arr.shape[:-1]
     N = arr.shape[-1]
     pf = Fraction(float(p))
@@ -564,7 +604,7 @@ def derived_checks(ctx, R, g, derived, key, desc, model_states, exact, tol=1e-12
                 ctx.fail(f"{key}:then-stats:raised", ddesc, "statistics", type(e).__name__, "statistics of a returned object raise")
                 ok = False
                 continue
-            ok = oracle_stats(ctx, f"{key}:then-stats", ddesc, arr, p, res) and ok
+            ok = oracle_stats(ctx, f"{key}:then-stats" + (":narrow-int" if narrow_int(arr.dtype) else ""), ddesc, arr, p, res) and ok
             if int(R.Ns) != arr.shape[-1]:
                 ok = False
                 ctx.fail(f"{key}:then-Ns", ddesc, arr.shape[-1], int(R.Ns), "Ns is not the number of stored samples")
@@ -641,7 +681,7 @@ def run(ctx):
     import cuqi.samples._samples as smod
     rng = ctx.rng
     thorough = ctx.tier == "thorough"
-    K = ctx.scale * (3 if thorough else 1)
+    K = ctx.scale
     ctx.trusted += ["CPython/numpy basic slicing `a[..., b::t]` (tied to the model's `sliceIdx` exhaustively for n<=10 quick, n<=16 thorough)",
                     "arviz.ess / arviz.rhat as leaf functions of the chains they are handed",
                     "geometry maps par2fun/fun2par/fun2vec/vec2fun (property C13) enter as data: the model is given the same map"]
@@ -677,6 +717,10 @@ def run(ctx):
         for b in range(0, N + 1):
             for t in range(1, N + 3):
                 cases.append((shape, N, ("bt", b, t)))
+    for _ in range(40 * K):   # sample counts / burn-in / thinning just below, at and past block-size-like constants
+        N = rng.choice(BIG_SIZES)
+        near = [0, 1, 4, 5, 7, 8, 9, 10, 11, 63, 64, 65, 99, 100, 101, 127, 128, 129, 199, 200, 201, 255, 256, 257, N - 1, N, N + 1]
+        cases.append((rng.choice([(2,), (1,), (2, 2)]), N, ("bt", rng.choice([v for v in near if 0 <= v <= N + 1]), rng.choice([v for v in near if 1 <= v <= N + 2]))))
     for _ in range(60 * K):   # malformed stream: negative / zero / huge values
         shape, N = rng.choice(shapes)
         cases.append((shape, N, gen_bt(rng, N, malformed=True)))
@@ -706,6 +750,12 @@ def run(ctx):
         if rep == "vec" and not g.has_vec:
             rep = "fun"
         N = rng.choice([1, 2, 3, 4, 5, 6, 8, 9, 12])
+        if i % 25 == 0:
+            if rng.random() < 0.5:
+                N = rng.choice(BIG_SIZES)
+            else:
+                g = make_geom(cuqi, rng, rng.choice(["default", "cont1d", "discrete", "map-third"]), d=rng.choice(BIG_SIZES))
+                rep = "par"
         if g.coupled is not None:
             N = max(N, 2)
             rep = "par" if (rep == "par" or g.coupled[2] is None or rng.random() < 0.6) else rep
@@ -796,7 +846,7 @@ def run(ctx):
                 nonfinite[0] += 1
                 istates[-1] = "err:nonfinite"
                 break
-            stol = 2e-6 if dt_of(arr) == "float32" else 1e-12   # a float32 chain is reduced by numpy (group means) in float32
+            stol = state_tol(dt_of(arr))   # a float32/float16 chain is reduced by numpy (group means) in that precision
             if not states_equal(m, st, exact=g.exact, tol=stol):
                 if ok:
                     # near-by search: same call on fresh copies with the neighbouring burn-in / thinning values
@@ -831,7 +881,7 @@ def run(ctx):
                     if (ci, k, j) in dline:
                         parts = all_outs[dline[(ci, k, j)]].split(" | ")
                         mst[j] = parts[k + 1] if len(parts) == k + 2 else None
-                derived_checks(ctx, R, g, ds, key, sdesc, mst, g.exact, tol=2e-6 if dt_of(arr) == "float32" else 1e-12)
+                derived_checks(ctx, R, g, ds, key, sdesc, mst, g.exact, tol=state_tol(dt_of(arr)))
                 branch_derived += len(ds)
             cur = R
             if isinstance(R.samples, np.ndarray) and R.samples.shape[-1] == 0:
@@ -912,7 +962,7 @@ def run(ctx):
             if int(S.Ns) != a2.shape[-1]:
                 ctx.fail(key + ":samples:Ns", desc, a2.shape[-1], int(S.Ns), "Ns is not that of the samples assigned last")
             if res is not None:
-                oracle_stats(ctx, key + ":samples:stats", {**desc, "percent": 0.5}, np.array(a2, dtype=float), 0.5, res)
+                oracle_stats(ctx, key + ":samples:stats" + (":narrow-int" if narrow_int(dt_of(a2)) else ""), {**desc, "percent": 0.5}, np.array(a2, dtype=float), 0.5, res)
             if not states_equal(outs[3 * ci], state_str(F2, g1), exact=True):
                 ctx.disagree(fkey(ctx, nf, key + ":samples"), desc, outs[3 * ci][:200], state_str(F2, g1)[:200], "funvals after re-assigning samples differs from a fresh object (model)")
             # (iii) another geometry assigned through the setter: conversions use it
@@ -923,7 +973,17 @@ def run(ctx):
             oracle_convert(ctx, key + ":geometry", desc, S, "fv", F3, g2)
             if not states_equal(outs[3 * ci + 1], state_str(F3, g2), exact=True):
                 ctx.disagree(fkey(ctx, nf, key + ":geometry"), desc, outs[3 * ci + 1][:200], state_str(F3, g2)[:200], "funvals after re-assigning the geometry differs from a fresh object (model)")
-            # G8: the objects returned before the re-assignments still hold what they held
+            # results outlive the objects they came from (no weak references to the source / to intermediate objects)
+            import gc
+            T = Samples(impl_arr(a1), geometry=g1.obj)
+            Tb = T.burnthin(b, t)
+            Tf = Tb.funvals
+            exp_state = state_str(Tf, g1)
+            del T, Tb
+            gc.collect()
+            if state_str(Tf, g1) != exp_state or not states_equal(m[1] if len(m) == 2 else exp_state, state_str(Tf, g1), exact=True):
+                ctx.fail(key + ":out-of-scope", desc, "result unchanged after its source objects were deleted", state_str(Tf, g1)[:200], "a result depends on objects that went out of scope")
+        # G8: the objects returned before the re-assignments still hold what they held
             if not same_answer(fp(F2.samples), fp(np.array([[float(g1.obj.par2fun(np.asarray(a2[:, i], dtype=float))[k]) for i in range(a2.shape[1])] for k in range(a2.shape[0])]))):
                 ctx.fail(key + ":retained", desc, "earlier funvals result unchanged", "changed", "a later call / re-assignment changed an object returned earlier")
         except Exception as e:   # an exception anywhere in this history on valid inputs is itself a failure of the property
@@ -937,6 +997,11 @@ def run(ctx):
         for p in LEVELS:
             arr = choose_dtype(rng, np.array([rng.randint(-20, 20) for _ in range(int(np.prod(shape)) * N)], dtype=float).reshape(shape + (N,)))
             stat_cases.append((arr, p, "stat-grid", None))
+    for _ in range(16 * K):   # sizes straddling block-size-like constants, along the sample axis and along the coordinates
+        n_big = rng.choice(BIG_SIZES)
+        shape, N = ((rng.choice([1, 2]),), n_big) if rng.random() < 0.6 else ((n_big,), rng.choice([2, 3, 5]))
+        arr = choose_dtype(rng, np.array([rng.randint(-20, 20) for _ in range(shape[0] * N)], dtype=float).reshape(shape + (N,)))
+        stat_cases.append((arr, gen_level(rng), "stat-big", None))
     for _ in range(400 * K):
         shape = rng.choice([(1,), (2,), (3,), (5,), (2, 2), (3, 2), (2, 1, 2)])
         N = rng.choice([1, 2, 3, 4, 7, 8, 10, 16, 25, 33])
@@ -1002,13 +1067,13 @@ def run(ctx):
             S = extra[1] if extra is not None else Samples(impl_arr(arr) * scale if scale != 1.0 else impl_arr(arr))
         snap = snapshot(S)
         raw = all_stats(S)
-        key = f"stats:{'nd' if arr.ndim > 2 else '2d'}" + (":after-" + extra[0].kind if extra is not None else "")
+        key = (f"stats:{'nd' if arr.ndim > 2 else '2d'}" + (":narrow-int" if narrow_int(S.samples.dtype) else "")
+               + (":after-" + extra[0].kind if extra is not None else ""))
         if raw[0] is None:
             ctx.fail(key + ":raised", desc, "mean/median/variance/std", raw[6], "a basic statistic raised on a numeric chain")
             continue
         mean, med, var, std, ci, width, ci_err = unscale([v if not isinstance(v, np.ndarray) else np.array(v, copy=True) for v in raw])
         extras["scaled"] += int(scale != 1.0)
-        key = f"stats:{'nd' if arr.ndim > 2 else '2d'}" + (":after-" + extra[0].kind if extra is not None else "")
         nf = len(ctx.failures)
         numbers = np.array(arr, dtype=float)
         ok = oracle_stats(ctx, key, desc, numbers, p, (mean, med, var, std, ci, width))
@@ -1055,8 +1120,8 @@ def run(ctx):
             bad = "model output"
         else:
             exact = (extra is None) or extra[0].exact
-            f32 = any(np.asarray(v).dtype == np.float32 for v in raw[:4]) or (extra is not None and extra[3].get("dtype") == "float32" and not extra[0].exact)
-            t1, t2 = (2e-6, 2e-5) if f32 else ((1e-13 if exact else 1e-11), 1e-11)
+            lp = low_prec(raw[:4], origin=(extra[3].get("dtype") if extra is not None and not extra[0].exact else None))
+            t1, t2 = lp if lp else ((1e-13 if exact else 1e-11), 1e-11)
             mm, mv, mmd = pv(toks[0]), pv(toks[1]), pv(toks[2])
             fl = lambda a: [float(x) for x in np.asarray(a).reshape(-1)]
             if not all(close(a, float(b), t1) for a, b in zip(fl(mean), mm)) or len(mm) != len(fl(mean)):
@@ -1115,13 +1180,16 @@ def run(ctx):
         def __getattr__(self, n):
             return getattr(real_arviz, n)
         def ess(self, d, **kw):
-            rec.append(("ess", d)); return real_arviz.ess(d, **kw)
+            rec.append(("ess", d, dict(kw))); return real_arviz.ess(d, **kw)
         def rhat(self, d, **kw):
-            rec.append(("rhat", d)); return real_arviz.rhat(d, **kw)
+            rec.append(("rhat", d, dict(kw))); return real_arviz.rhat(d, **kw)
 
-    def leaf(fn, a):
+    def leaf(fn, a, **kw):
         with quiet():
-            return float(fn(np.asarray(a, dtype=float)))
+            return float(fn(np.asarray(a, dtype=float), **kw))
+
+    ESS_KW = [{}, {}, {"method": "tail"}, {"method": "mean"}, {"relative": True}, {"method": "bulk", "relative": True}]
+    RHAT_KW = [{}, {}, {"method": "split"}, {"method": "folded"}, {"method": "identity"}]
 
     smod.arviz = Spy()
     try:
@@ -1140,11 +1208,20 @@ def run(ctx):
                 dd = arr.shape[0]
                 idx = [rng.randrange(dd) for _ in range(rng.randint(0 if rng.random() < 0.2 else 1, 3))]   # [] is falsy but is not None (G6)
             ecases.append((g, rep, arr, idx))
+        # sizes just below / at / just past block-size-like constants, incl. dimensions that are not a multiple of them
+        bigs = rng.sample(BIG_SIZES, 5 if not thorough else 12) + [rng.choice([101, 130, 257]), rng.choice([199, 201, 301])]
+        for d in bigs:
+            g = make_geom(cuqi, rng, rng.choice(["default", "cont1d", "discrete"]), d=d)
+            arr = initial_array(rng, g, "par", rng.choice([4, 5, 6]))
+            idx = None if rng.random() < 0.8 else sorted(rng.sample(range(d), min(d, rng.choice([100, 101, 128]))))
+            ecases.append((g, "par", arr, idx))
         lines = [f"ess {g.spec} {arr.shape[0]} {int(rep == 'par')} 1 {qm(cols_of(arr))} {'all' if idx is None else (','.join(map(str, idx)) or '_')}"
                  for g, rep, arr, idx in ecases]
         outs = ctx.lean.drive(lines)
-        for (g, rep, arr, idx), out in zip(ecases, outs):
-            desc = {"geometry": g.spec, "rep": rep, "shape": list(arr.shape), "variable_indices": idx, "samples": arr.tolist(), "dtype": dt_of(arr)}
+        for ei, ((g, rep, arr, idx), out) in enumerate(zip(ecases, outs)):
+            kw = ESS_KW[ei % len(ESS_KW)]
+            desc = {"geometry": g.spec, "rep": rep, "shape": list(arr.shape), "variable_indices": idx if idx is None or len(idx) < 20 else f"{len(idx)} indices",
+                    "samples": arr.tolist() if arr.size <= 400 else "array of %d" % arr.size, "dtype": dt_of(arr), "kwargs": kw}
             ctx.case("ess", {"geometry": g.spec, "rep": rep, "idx": idx, "h": hash(arr.tobytes()) % 10 ** 6})
             klass = "dup-names" if g.kind == "dupnames" else ("funvec-ne-par" if (rep == "vec" and g.funvec_dim != g.par_dim) else "plain")
             key = f"ess:{klass}:{g.kind}" + (":indices" if idx is not None else "")
@@ -1155,7 +1232,15 @@ def run(ctx):
             try:
                 with quiet():
                     if idx is None:
-                        res = S.compute_ess(); dd = rec[-1][1]
+                        res = S.compute_ess(**kw)
+                        dd = {}
+                        for r_ in rec:          # all dictionaries handed to arviz during the call, in order (a blocked implementation may call it several times)
+                            for k_, v_ in r_[1].items():
+                                dd[k_] = v_
+                        if any(r_[2] != kw for r_ in rec) or not rec:
+                            pre_kw = [r_[2] for r_ in rec]
+                        else:
+                            pre_kw = None
                     else:
                         dd = S.to_arviz_inferencedata(idx); res = None
                 impl = ";".join(f"{k}={qv(v)}" for k, v in dd.items()) or "_"
@@ -1173,7 +1258,7 @@ def run(ctx):
                 if res is not None and isinstance(res, np.ndarray):
                     res_keep = res.copy(); res[...] = -5
                     with quiet():
-                        res2 = S.compute_ess()
+                        res2 = S.compute_ess(**kw)
                     if not same_answer(res_keep, res2):
                         ok = False
                         ctx.fail(key + ":alias", desc, "same ESS after the caller overwrote the returned array", "different", "the returned ESS array aliases internal state")
@@ -1189,7 +1274,10 @@ def run(ctx):
                     ok = False
                     ctx.fail(key + ":chains", desc, f"{len(want_rows)} chains = rows {want_rows} in order", f"{len(vals)} chains", "the dictionary handed to arviz is not each variable's own chain in order")
                 if res is not None:
-                    want = [leaf(real_arviz.ess, arr[r]) for r in want_rows]
+                    if pre_kw is not None:
+                        ok = False
+                        ctx.fail(key + ":kwargs", desc, kw, pre_kw, "keyword arguments of compute_ess do not all arrive at arviz.ess")
+                    want = [leaf(real_arviz.ess, arr[r], **kw) for r in want_rows]
                     if len(res) != len(want) or not np.allclose(np.asarray(res), np.asarray(want), rtol=1e-6 if dt_of(arr) != "float64" else 0, atol=0, equal_nan=True):
                         ok = False
                         ctx.fail(key + ":values", desc, want, np.asarray(res).tolist(), "compute_ess()[i] is not the ESS of variable i's chain")
@@ -1213,6 +1301,9 @@ def run(ctx):
                 gs[-1] = g2
                 arrs[-1] = initial_array(rng, g2, "par", N)
             rcases.append((kd, gs, rep, arrs))
+        for d in rng.sample(BIG_SIZES, 3 if not thorough else 8) + [rng.choice([101, 130, 257])]:
+            g = make_geom(cuqi, rng, rng.choice(["default", "cont1d", "discrete"]), d=d)
+            rcases.append(("big", [g, g, g], "par", [initial_array(rng, g, "par", 4) for _ in range(3)]))
         lines = []
         for kd, gs, rep, arrs in rcases:
             toks = ["rhat"]
@@ -1228,8 +1319,9 @@ def run(ctx):
             if how == "single" and len(arrs) > 2:
                 how = "list"
             rhat_i += 1
-            desc = {"geometry": [x.spec for x in gs], "rep": rep, "shape": list(arrs[0].shape), "chains": [a.tolist() for a in arrs],
-                    "dtype": [dt_of(a) for a in arrs], "chains_passed_as": how}
+            rkw = RHAT_KW[rhat_i % len(RHAT_KW)]
+            desc = {"geometry": [x.spec for x in gs], "rep": rep, "shape": list(arrs[0].shape), "chains": [a.tolist() if a.size <= 400 else "array" for a in arrs],
+                    "dtype": [dt_of(a) for a in arrs], "chains_passed_as": how, "kwargs": rkw}
             ctx.case("rhat", {"geometry": desc["geometry"], "rep": rep, "h": hash(arrs[0].tobytes()) % 10 ** 6})
             klass = "dup-names" if g.kind == "dupnames" else ("funvec-ne-par" if (rep == "vec" and g.funvec_dim != g.par_dim) else "plain")
             key = f"rhat:{klass}:{kd}"
@@ -1244,7 +1336,7 @@ def run(ctx):
             pre_fail = []
             try:
                 with quiet():
-                    res = Ss[0].compute_rhat(arg)
+                    res = Ss[0].compute_rhat(arg, **rkw)
                 dd = rec[-1][1]
                 impl = ";".join(k + "=" + "/".join(qv(r) for r in v) for k, v in dd.items()) or "_"
             except Exception as e:
@@ -1263,7 +1355,7 @@ def run(ctx):
                     rec.clear()
                     try:
                         with quiet():
-                            r2 = who.compute_rhat(lst)
+                            r2 = who.compute_rhat(lst, **rkw)
                         second.append((rec[-1][1], r2))
                     except Exception as e:
                         second.append((None, type(e).__name__))
@@ -1304,7 +1396,10 @@ def run(ctx):
                     ok = False
                     ctx.fail(key + ":chains", desc, f"{d} variables, each with its own chain from every Samples object", f"{len(vals)} variables",
                              "the dictionary handed to arviz.rhat is not each variable's own chains in order")
-                want = [leaf(real_arviz.rhat, np.stack([a[k] for a in arrs])) for k in range(d)]
+                if any(r_[2] != rkw for r_ in rec):
+                    ok = False
+                    ctx.fail(key + ":kwargs", desc, rkw, [r_[2] for r_ in rec], "keyword arguments of compute_rhat do not all arrive at arviz.rhat")
+                want = [leaf(real_arviz.rhat, np.stack([a[k] for a in arrs]), **rkw) for k in range(d)]
                 # entries the code never writes hold arbitrary memory: compare only what the model says is written
                 written = [k for k in range(len(res))] if mpos is None else [k for k, pz in enumerate(mpos) if pz != "x"]
                 rt = 0 if all(dt_of(a) == "float64" for a in arrs) else 1e-6
@@ -1333,7 +1428,10 @@ def joint_part(ctx, cuqi, rng, K):
         for k in keys:
             g = make_geom(cuqi, rng, rng.choice(["default", "cont1d", "imgF", "names", "step", "one"]))
             N = N0 if rng.random() < 0.85 else rng.choice([2, 4, 9])
-            members.append((k, g, initial_array(rng, g, "par", N)))
+            if members and rng.random() < 0.2:
+                members.append((k, members[-1][1], members[-1][2]))      # same geometry object, same stored numbers
+            else:
+                members.append((k, g, initial_array(rng, g, "par", N)))
         op = gen_bt(rng, N0, malformed=(rng.random() < 0.1))
         # branching histories on the members: reads discarded before the joint call, reads derived from the result's members
         jreads = {k: [rng.choice(READS) for _ in range(rng.randint(1, 2))] for k in keys if rng.random() < 0.5}
@@ -1360,7 +1458,12 @@ def joint_part(ctx, cuqi, rng, K):
                 "side_reads_before_op": jreads, "dtype": {k: dt_of(a) for k, g, a in members}}
         ctx.case("joint", {"members": desc["members"], "op": desc["op"], "h": hash(b"".join(a.tobytes() for _, _, a in members)) % 10 ** 6}, nontrivial=len(members) >= 2)
         with quiet():
-            J = JointSamples({k: Samples(impl_arr(a), geometry=g.obj) for k, g, a in members})
+            shared = {}
+            def store(a):      # members built from the same numbers share ONE array object
+                if id(a) not in shared:
+                    shared[id(a)] = impl_arr(a)
+                return shared[id(a)]
+            J = JointSamples({k: Samples(store(a), geometry=g.obj) for k, g, a in members})
         nf0 = len(ctx.failures)
         answers = {k: side_reads_before(ctx, J[k], jreads[k], "joint:burnthin:member", {**desc, "member": k}) for k, _, _ in members if k in jreads}
         snaps = {k: snapshot(J[k]) for k in J}
